@@ -20,6 +20,10 @@
      - BTreeMap<String,_> (ObjectMatcher, BoundObject) is its key-ordered entry list;
        BTreeSet<String> is a list used only through membership;
      - KipError is reduced to its code (InvalidSyntax / DuplicateLocalHandle / ReferenceError).
+   None of the opaque payloads is looked into by the tree validator or by [Safe]
+   (gen/Gen_Kip.v [opaque_payloads_inspected] = [] and [filter_binds_nothing] = true are
+   regenerated from the source and pinned by C16_dispatch_as_modelled; the day the validator
+   inspects one of them that lemma breaks and the AST must be widened).
    Lists nested inside the recursive types use their own cons types so that the mutual
    fixpoints below are plainly structural.  No proofs in this file. *)
 From Coq Require Import List String Bool Arith.
